@@ -23,6 +23,10 @@ struct GenGeoStats
 //! spec: {kind:"gen", seed, half_width, max_depth, max_objects, max_terms, p_daughter, p_array}
 celeritas::OrangeInput generate_geometry(json const& spec, GenGeoStats* stats = nullptr);
 
+//! spec: {kind:"api", seed, half_width, max_depth}: object tree built by the
+//! construction API (orangeinp) and converted by the real InputBuilder
+celeritas::OrangeInput build_api_geometry(json const& spec, GenGeoStats* stats = nullptr);
+
 //! spec: {kind:"file", file} or a generator spec
 celeritas::OrangeInput load_geometry_input(json const& geo, GenGeoStats* stats = nullptr);
 }  // namespace vsim
